@@ -15,7 +15,7 @@ def gen_image(rng, n, arch=None, small_identity=False):
     path = "%s/%s/img-%d.%s" % (pick(rng, VARIANTS), arch, n, fmt)
     if rng.random() < 0.12:
         # names that differ from each other ONLY in one non-ASCII character (same length, same position)
-        path = "Server/iso/Fedora-%sdition.iso" % "\u00e9\u00fc\u00f6\u00e0\u00f1\u4e2d\u00e7\u00e5"[n % 8]
+        path = "Server/iso/Fedora-%sdition%s.iso" % ("\u00e9\u00fc\u00f6\u00e0\u00f1\u4e2d\u00e7\u00e5"[n % 8], "" if n < 8 else str(n // 8))
     img = {
         "path": path,
         "mtime": pools.anyint(rng, [0, 1410855216, 2 ** 31 + 5, 1], big=0.06),
@@ -53,8 +53,8 @@ def gen_content(rng, max_images=8, unique=True):
         K["imgs"].append(img)
     if rng.random() < 0.1:
         # a whole manifest of names that differ ONLY in one non-ASCII character (same length, same position)
-        for i, img in enumerate(K["imgs"][:8]):
-            img["path"] = "Server/iso/Fedora-%sdition.iso" % "\u00e9\u00fc\u00f6\u00e0\u00f1\u4e2d\u00e7\u00e5"[i]
+        for i, img in enumerate(K["imgs"]):
+            img["path"] = "Server/iso/Fedora-%sdition%s.iso" % ("\u00e9\u00fc\u00f6\u00e0\u00f1\u4e2d\u00e7\u00e5"[i % 8], "" if i < 8 else str(i // 8))
     # the same content under a second name (hard link / copy): equal identity AND equal checksums, other path/mtime/size
     for i in range(len(K["imgs"])):
         if rng.random() < 0.15:
